@@ -29,39 +29,39 @@ type entry struct {
 }
 
 type seqOp struct {
-	Kind   string `json:"op"` // resolve | advance | zone | fail | cachesize
-	Name   string `json:"name,omitempty"`
-	D      int64  `json:"seconds,omitempty"`          // advance: step; resolve: step applied while a query is in flight
-	JumpAt int    `json:"step_at_query,omitempty"`    // resolve: the clock steps when the n-th upstream query arrives
-	Fail   string `json:"fail,omitempty"`             // fail: none | servfail | http400
-	Size   int    `json:"size,omitempty"`             // cachesize
-	Spec   any    `json:"new_rrsets,omitempty"`       // zone: RRSets that changed shape
-	Clock  int64  `json:"clock"`                      // virtual second at the start of the op
-	Ver    int    `json:"zone_version"`               // data version installed when the op started
+	Kind   string  `json:"op"` // resolve | advance | zone | fail | cachesize
+	Name   string  `json:"name,omitempty"`
+	D      int64   `json:"seconds,omitempty"`          // advance: step; resolve: step applied while a query is in flight
+	JumpAt int     `json:"step_at_query,omitempty"`    // resolve: the clock steps when the n-th upstream query arrives
+	Fail   string  `json:"fail,omitempty"`             // fail: none | servfail | http400
+	Size   int     `json:"size,omitempty"`             // cachesize
+	Spec   any     `json:"new_rrsets,omitempty"`       // zone: RRSets that changed shape
+	Clock  int64   `json:"clock"`                      // virtual second at the start of the op
+	Ver    int     `json:"zone_version"`               // data version installed when the op started
 	Q      *[3]int `json:"upstream_queries,omitempty"` // resolve: queries seen for HTTPS, A, AAAA
 	Got    *[3]int `json:"served_versions,omitempty"`  // resolve: version of the HTTPS, A, AAAA data returned (-1 empty)
-	Err    string `json:"error,omitempty"`
-	Expect string `json:"model,omitempty"` // per key: what the model demanded
+	Err    string  `json:"error,omitempty"`
+	Expect string  `json:"model,omitempty"` // per key: what the model demanded
 }
 
 var failNames = map[int]string{dohfake.FailNone: "none", dohfake.FailServfail: "servfail", dohfake.FailHTTP400: "http400"}
 
 type seqHist struct {
-	e       *env
-	work    string
-	idx     int
-	srv     *dohfake.Server
-	res     *ech.Resolver
-	clock   *vclock
-	names   []string
-	specs   []zoneSpec // by data version
-	ver     int
-	fail    int
-	size    int // cache size (0 = disabled)
-	entries map[string]*[3]entry
-	ops     []*seqOp
-	counts  map[string]int64
-	classes map[string]bool
+	e            *env
+	work         string
+	idx          int
+	srv          *dohfake.Server
+	res          *ech.Resolver
+	clock        *vclock
+	names        []string
+	specs        []zoneSpec // by data version
+	ver          int
+	fail         int
+	size         int // cache size (0 = disabled)
+	entries      map[string]*[3]entry
+	ops          []*seqOp
+	counts       map[string]int64
+	classes      map[string]bool
 	failedBefore bool
 }
 
